@@ -208,8 +208,8 @@ pub fn run(rep: &Report) {
          non-trivial = distinct program in which a rule run changed the database and a union occurred (so merges/rebuilds happen on the parallel paths), compared under at least one configuration whose child process reports (verif-hooks counters) that a parallel code path was really entered",
     );
     rep.assume("thread interleavings are sampled by repetition, not enumerated");
-    let st = C06 { profiles: profiles(rep.tier), reps: rep.tier.pick(1, 3) };
+    let st = C06 { profiles: profiles(rep.tier), reps: rep.tier.pick(1, 2) };
     rep.run_regressions(&st);
-    rep.explore(&st, rep.tier.pick(400, 6000), 700);
+    rep.explore(&st, rep.tier.pick(400, 1500), 700);
     run_corpus(rep, &corpus_stage(&profiles(Tier::Quick)[0]));
 }
